@@ -54,6 +54,49 @@ def lower_bound(f, e):
     return 0
 
 
+def _arith_leaves(e, out=None):
+    """the values an index expression is computed from: descends through ranges, arithmetic, casts and overflow-checked results, stops at
+    calls (what a call returned is a value of its own, whatever went into the call)"""
+    out = set() if out is None else out
+    if not isinstance(e, tuple) or not e:
+        return out
+    if e[0] == "adt":
+        for x in e[3]:
+            _arith_leaves(x, out)
+    elif e[0] == "bin":
+        _arith_leaves(e[2], out)
+        _arith_leaves(e[3], out)
+    elif e[0] in ("cast", "un"):
+        _arith_leaves(e[2], out)
+    elif e[0] == "place" and e[1][0] == "bin":
+        _arith_leaves(e[1], out)
+    elif e[0] == "call" and e[1] and e[1].endswith(("::from", "::into", "::try_from", "::unwrap", "::unwrap_or")) and e[2]:
+        _arith_leaves(e[2][0], out)
+    else:
+        out.add(e if e[0] in ("phi", "local", "param", "const") else (e[0], str(e)[:40]))
+    return out
+
+
+def _locals_feeding(f, op, depth=8):
+    """locals through which the operand's value flows (refs, moves, copies)"""
+    out = set()
+    l = is_local(op)
+    while l is not None and depth > 0 and l not in out:
+        out.add(l)
+        depth -= 1
+        ds = cfg.defs_of_local(f, l)
+        if len(ds) != 1 or ds[0][0] != "stmt":
+            break
+        rv = ds[0][3]["rv"]
+        if rv["k"] == "use":
+            l = is_local(rv["a"])
+        elif rv["k"] in ("ref", "copyforderef"):
+            l = rv["p"]["l"]
+        else:
+            break
+    return out
+
+
 def run(tier):
     rep = new_report(tier)
     F = facts.load()
@@ -183,6 +226,36 @@ def run(tier):
     total, disc, residual = panics.review(rep, "panic-review", F, fns, table, short)
     rep.extra["panic_sites"] = {"total": total, "mechanically_discharged": disc, "reviewed": sum(len(v) for v in residual.values())}
     rep.floor("panic-capable sites inventoried in encoding.rs", total, 6)
+    # offsets into the whole input are taken from the running total: the decoder is fed `&input[total..]` and reports how much of *that*
+    # it read, so an offset built from the per-call count alone points at the wrong bytes from the second call on (the callback trap and
+    # the error message quote those bytes)
+    dl = F.fns.get("saphyr::encoding::decode_loop")
+    if dl is not None:
+        dec = [(bb, t) for bb, t, ck, fr in dl.calls() if ck and "decode_to_" in ck]
+        idx = [(bb, t) for bb, t, ck, fr in dl.calls() if ck == "std::ops::Index::index" and len(t["args"]) == 2]
+        total = None
+        for bb, t in idx:
+            e1_ = cfg.expr_operand(dl, t["args"][1], 4)
+            # the slice handed to the decoder
+            used = any(("l" in (a.get("move") or a.get("copy") or {})) and cfg.resolve_copy_chain(dl, (a.get("move") or a.get("copy"))["l"]) is not None
+                       and t["dest"]["l"] in _locals_feeding(dl, a) for _, td in dec for a in td["args"])
+            if used and e1_[0] == "adt" and e1_[3] and e1_[3][0][0] == "phi":
+                total = e1_[3][0][1]
+        rep.check(total is not None, "running-total", "decode_loop:decoder-input", "the slice handed to the decoder no longer starts at a running total of the bytes read",
+                  site=dl.span)
+        nidx = 0
+        for bb, t in idx:
+            base = cfg.strip_reborrow(cfg.expr_operand(dl, t["args"][0], 6))
+            if not (base[0] == "ref" and base[1] in (("param", 1), ("place", ("param", 1), ["deref"]))) and "arg1" not in cfg.expr_str(base):
+                continue
+            nidx += 1
+            ex = cfg.expr_operand(dl, t["args"][1], 14)
+            es = cfg.expr_str(ex)
+            lv = _arith_leaves(ex)
+            rep.check(total is not None and ("phi", total) in lv, "running-total", "decode_loop:input-offset#%d" % nidx,
+                      "an offset into the whole input is not built from the running total of bytes read: from the second decoder call on it points at the wrong bytes",
+                      site=site(dl, t["sp"]), detail=es[:200])
+        rep.floor("offsets into the decoder input", nidx, 3)
     # encoding sniffing without a BOM: the table of detect_utf16_endianness over two-byte prefixes (constant folding).  YAML 1.2.2 5.2:
     # the first character of a stream is ASCII, so the position of the NUL byte of its UTF-16 encoding tells the byte order -
     # whatever that ASCII character is (a line break or a tab may start a stream just as well as a letter).
